@@ -164,8 +164,11 @@ def bootstrap(warmup=True, sim_locks=True):
     WORLD.registry = B.registry
     WORLD.initial_state = B.registry.state
     WORLD.caches = find_caches()
-    if not WORLD.caches and os.environ.get("EINX_CACHE_SIZE") != "0":
-        raise RuntimeError("no einx compile cache found: runs could not be isolated from each other")
+    # best effort: a tree under test may implement its cache differently (then nothing can be cleared; checks that need
+    # cold caches per run use run-unique axis names in addition, see workload.rename_axes)
+    WORLD.cache_isolation = bool(WORLD.caches) or os.environ.get("EINX_CACHE_SIZE") == "0"
+    if not WORLD.cache_isolation:
+        sys.stderr.write("[seams] no functools cache found in einx: compile caches cannot be cleared between runs\n")
     seed_uuid(0)
     if warmup:
         do_warmup()
